@@ -556,8 +556,17 @@ func oracleSSInvariant(o *Out, op string, pre, post *gPool, line string) {
 		}
 	}
 	o.Count("ss.invariant.checked." + op)
-	if ssK(post).Cmp(ssK(pre)) < 0 {
-		o.Fail("stableswap:invariant-decreased:"+op+":"+ssShape(pre), line)
+	if kPre, kPost := ssK(pre), ssK(post); kPost.Cmp(kPre) < 0 {
+		// the solver's acceptance test runs on half-even 36-decimal products: a fall of less than 18e-36 relative is the
+		// machine-checked finding F45 (Props/C04Stable: K' >= K(1-18e-36) for every swap); anything larger is a violation
+		lim := new(big.Rat).SetFrac(big.NewInt(18), pow10(36))
+		drop := new(big.Rat).Sub(kPre, kPost)
+		drop.Quo(drop, kPre)
+		if drop.Cmp(lim) < 0 {
+			o.Fail("stableswap:invariant-decreased:within-36-decimal-rounding:"+op+":"+ssShape(pre), line)
+		} else {
+			o.Fail("stableswap:invariant-decreased:"+op+":"+ssShape(pre), line)
+		}
 	}
 }
 
